@@ -37,13 +37,19 @@ func HasAggregateFunction(expr parser.QueryExpression, scope *ReferenceScope) (b
 		return HasAggregateFunctionInList(expr.(parser.Concat).Items, scope)
 	case parser.Comparison:
 		e := expr.(parser.Comparison)
-		return HasAggregateFunctionInList([]parser.QueryExpression{e.LHS, e.RHS}, scope)
+		return hasAggFuncInRowValueComparison(e.LHS, e.RHS, scope)
 	case parser.Is:
 		e := expr.(parser.Is)
 		return HasAggregateFunctionInList([]parser.QueryExpression{e.LHS, e.RHS}, scope)
 	case parser.Between:
 		e := expr.(parser.Between)
-		return HasAggregateFunctionInList([]parser.QueryExpression{e.LHS, e.Low, e.High}, scope)
+		for _, v := range []parser.QueryExpression{e.LHS, e.Low, e.High} {
+			ok, err := hasAggFuncInRowValue(v, scope)
+			if err != nil || ok {
+				return ok, err
+			}
+		}
+		return false, nil
 	case parser.Like:
 		e := expr.(parser.Like)
 		return HasAggregateFunctionInList([]parser.QueryExpression{e.LHS, e.Pattern}, scope)
@@ -192,13 +198,23 @@ func SearchAnalyticFunctions(expr parser.QueryExpression) ([]parser.AnalyticFunc
 		return SearchAnalyticFunctionsInList(expr.(parser.Concat).Items)
 	case parser.Comparison:
 		e := expr.(parser.Comparison)
-		return SearchAnalyticFunctionsInList([]parser.QueryExpression{e.LHS, e.RHS})
+		return searchAnalyticFunctionsInRowValueComparison(e.LHS, e.RHS)
 	case parser.Is:
 		e := expr.(parser.Is)
 		return SearchAnalyticFunctionsInList([]parser.QueryExpression{e.LHS, e.RHS})
 	case parser.Between:
 		e := expr.(parser.Between)
-		return SearchAnalyticFunctionsInList([]parser.QueryExpression{e.LHS, e.Low, e.High})
+		var funcs []parser.AnalyticFunction = nil
+		for _, v := range []parser.QueryExpression{e.LHS, e.Low, e.High} {
+			children, err := searchAnalyticFunctionsInRowValue(v)
+			if err != nil {
+				return funcs, err
+			}
+			if children != nil {
+				funcs = appendAnalyticFunctionToListIfNotExist(children, funcs)
+			}
+		}
+		return funcs, nil
 	case parser.Like:
 		e := expr.(parser.Like)
 		return SearchAnalyticFunctionsInList([]parser.QueryExpression{e.LHS, e.Pattern})
